@@ -406,8 +406,13 @@ def call_numpy(it, tail, args, kwargs, env, node, chain):
     if tail == "angle":
         # np.angle(a + 1j*b) with a, b free of the imaginary unit is arctan2(b, a)
         p_ = split_complex(t[0]) if t[0].has(sp.I) else None
-        if p_ is not None and p_[1] != 0 and kw(kwargs, "deg") in (None, False):
+        deg = kw(kwargs, "deg")
+        if deg is None and len(t) > 1:
+            deg = t[1]
+        if p_ is not None and p_[1] != 0 and deg in (None, False, T.FALSE_T):
             return sp.atan2(p_[1], p_[0])
+        if p_ is not None and p_[1] != 0 and deg in (True, T.TRUE_T):
+            return sp.atan2(p_[1], p_[0]) * 180 / sp.pi      # np.angle(z, deg=True)
         return op("angle", t[0])
     if tail == "linalg.norm":
         return op("norm", t[0])
@@ -678,6 +683,17 @@ def subst_index(val, pattern, actual):
 
 def term_getitem(it, base, idx, env, node):
     f = fname(base)
+    # component k of a sum of stacked components is the sum of component k: (sum_i stack((x, y, z)))[k] == sum_i (x, y, z)[k]
+    if isinstance(idx, sp.Basic) and getattr(idx, "is_Integer", False):
+        if f in ("loopsum", "loopsum_brk") and fname(base.args[0]) in ("stack", "array") and base.args[0].args:
+            comps = base.args[0].args[0].args if isinstance(base.args[0].args[0], sp.Tuple) else base.args[0].args
+            if 0 <= int(idx) < len(comps):
+                return op(f, comps[int(idx)], *base.args[1:])
+        if isinstance(base, sp.Mul):
+            arrs = [a for a in base.args if not (a.is_number or is_scalar_term(a))]
+            if len(arrs) == 1 and fname(arrs[0]) in ("loopsum", "loopsum_brk"):
+                rest = sp.Mul(*[a for a in base.args if a is not arrs[0]])
+                return rest * term_getitem(it, arrs[0], idx, env, node)
     if f == "zeros" and isinstance(idx, sp.Basic) and (getattr(idx, "is_Integer", False) or (isinstance(idx, sp.Symbol) and not T.is_str_symbol(idx))):
         return sp.Integer(0)        # any element of np.zeros(..)
     # np.stack((r0, r1, ..))[k, j] with a concrete k is r_k[j]
